@@ -227,7 +227,13 @@ def run_history(chk, ops_gen, hist_id):
                           f"{op[0]} raised {type(e).__name__}: {e}", history=[op_show(o) for o in ops])
             return None
         ref.apply(op)
-        snap = snapshot_impl(net, objs)
+        try:
+            snap = snapshot_impl(net, objs)
+        except Exception as e:
+            chk.violation({"kind": "query-raised", "op": op[0], "error": type(e).__name__},
+                          f"species / find_source_sink raised {type(e).__name__}: {e} after {op[0]}",
+                          history=[op_show(o) for o in ops])
+            return None
         impl_snaps.append(snap)
         chk.count((hist_id, len(ops)), nontrivial=bool(ref.held or ref.skipped))
         chk.hist["op:" + op[0]] += 1
